@@ -5,6 +5,7 @@ package schema
 
 import (
 	"context"
+	"errors"
 	"fmt"
 	"sort"
 	"strconv"
@@ -32,6 +33,13 @@ func (LiteralValue) isConstraintImpl() constraintSigil {
 
 func (lv LiteralValue) FriendlyName() string {
 	return lv.Value.Type().FriendlyNameForConstraint()
+}
+
+func (lv LiteralValue) Validate() error {
+	if lv.Value == cty.NilVal || lv.Value.IsNull() || !lv.Value.IsWhollyKnown() {
+		return errors.New("expected Value to be a known, non-null value")
+	}
+	return nil
 }
 
 func (lv LiteralValue) Copy() Constraint {
